@@ -4,7 +4,7 @@ From Coq Require Import ZArith QArith List Bool.
 From Centro Require Import Base.VecC13 Proofs.VecC13Proofs Model.MeasureC13 Proofs.MeasureC13Proofs Model.EllipseCoordsC13 Proofs.EllipseC13Proofs
   Proofs.PadC13Proofs Proofs.TranslateC13Proofs Proofs.EllipseRowsC13.
 From Centro Require Model.Circle Model.CircleVec Model.Feret Proofs.CircleVecProofs Proofs.CircleVecStep Model.MecFeretC13 Proofs.MecFeretC13Proofs
-  Spec.HullSpec Spec.MecSpec Spec.FeretSpec Spec.FeretBrute Proofs.OwnRowsC13 Proofs.PolygonDiscC13 Proofs.EndToEndC13 Proofs.MecVecOwnerC13 Proofs.MecVecInvC13 Proofs.HullBoundC13.
+  Spec.HullSpec Spec.MecSpec Spec.FeretSpec Spec.FeretBrute Proofs.OwnRowsC13 Proofs.PolygonDiscC13 Proofs.EndToEndC13 Proofs.MecVecOwnerC13 Proofs.MecVecInvC13 Proofs.MecVecSimC13 Proofs.HullBoundC13.
 From Centro Require Proofs.HullGuard Model.Hull Proofs.HullBatch Model.HullAreaC13 Proofs.HullAreaC13Proofs Model.MedianC18 Spec.SpecC18 Proofs.MedianC13Proofs Model.IndexesC18 Proofs.IndexesC18Proofs.
 Import ListNotations.
 Open Scope Z_scope.
@@ -426,6 +426,46 @@ Theorem C13_mec_vec_idle_frame : forall rows app n st k,
   CircleVecProofs.agree app k (CircleVec.vstep rows app n st) st.
 Proof. exact MecVecInvC13.idle_frame'. Qed.
 Print Assumptions C13_mec_vec_idle_frame.
+
+(* ---- whole call: the vectorised bookkeeping (global hull rows, point_index offsets, anti-index gather,
+   within_label_indexes, global s0_idx / s1_idx, one decision per active object and pass) computes, for
+   every object, exactly the per-object Chrystal loop on its own block.  Simulation: object k's view of
+   the global arrays (S0 / S1 rows, w = 0 / 1 / >= 2 on its own rows) is a state of the per-object loop,
+   the candidate scan of its rows chooses the same vertex, its write is the loop's step, other objects'
+   writes do not touch it, a finished object is frozen.  The hypothesis excludes blocks on which the
+   per-object loop itself exhausts its iteration bound (never a hull: C14_chrystal_on_every_hull). ---- *)
+Theorem C13_chrystal_vec_correct : forall indexes blocks,
+  NoDup indexes -> (forall j, In j indexes -> 0 <= j) -> length indexes = length blocks ->
+  (forall b, In b blocks -> Circle.chrystal b <> Circle.CFuel) ->
+  CircleVec.chrystal_vec indexes blocks = map Circle.chrystal blocks.
+Proof. exact MecVecSimC13.chrystal_vec_correct. Qed.
+Print Assumptions C13_chrystal_vec_correct.
+
+(* renumbering of the request list *)
+Theorem C13_chrystal_vec_renumber : forall (f : Z -> Z) indexes blocks,
+  (forall a c, f a = f c -> a = c) -> (forall a, 0 <= a -> 0 <= f a) ->
+  NoDup indexes -> (forall j, In j indexes -> 0 <= j) -> length indexes = length blocks ->
+  (forall b, In b blocks -> Circle.chrystal b <> Circle.CFuel) ->
+  CircleVec.chrystal_vec (map f indexes) blocks = CircleVec.chrystal_vec indexes blocks.
+Proof. exact MecVecSimC13.chrystal_vec_renumber. Qed.
+Print Assumptions C13_chrystal_vec_renumber.
+
+(* request order / subsets / other objects: position by position a function of that position's block only *)
+Theorem C13_mec_rows_vec_correct : forall rows : list (Z * list Circle.cpt),
+  NoDup (map fst rows) -> (forall j, In j (map fst rows) -> 0 <= j) ->
+  (forall r, In r rows -> Circle.chrystal (snd r) <> Circle.CFuel) ->
+  MecFeretC13.mec_rows_vec rows = MecFeretC13.mec_rows rows.
+Proof. exact MecVecSimC13.mec_rows_vec_correct. Qed.
+Print Assumptions C13_mec_rows_vec_correct.
+
+(* end to end for the VECTORISED model on the rows of C02's convex_hull_ijv: with C13_mec_end_to_end every
+   position of the vectorised call is THE minimum enclosing circle of the requested label's own pixels *)
+Theorem C13_mec_vec_end_to_end : forall ijv indexes,
+  NoDup indexes -> (forall j, In j indexes -> 0 <= j) -> OwnRowsC13.nonneg_rows ijv ->
+  MecFeretC13.mec_rows_vec (fst (Hull.convex_hull_ijv ijv indexes)) =
+  MecFeretC13.mec_rows (fst (Hull.convex_hull_ijv ijv indexes)).
+Proof. exact EndToEndC13.mec_vec_end_to_end. Qed.
+Print Assumptions C13_mec_vec_end_to_end.
 
 (* ---- independence from the other labels: the kernel's only non-own input, the sentinel max_i + 1 of the
    lower envelope (max_i = largest row index of the whole call), is irrelevant ---- *)
